@@ -643,4 +643,10 @@ def r15_12(ctx):
     ctx.floor(n, 1, "raise sites in Capture.get")
 
 
-RULES = [r15_1, r15_2, r15_3, r15_4, r15_5, r15_6, r15_7, r15_8, r15_9, r15_10, r15_11, r15_12]
+def r15_13(ctx):
+    from .c03 import r3_1
+    from .common import borrow as _borrow
+    _borrow(ctx, r3_1, "R3.1", "R15.13", " [the file text and the recorded text are the same characters: Style.render puts escape sequences AROUND the text and returns every character of it - a render that drops or moves characters (trailing new lines taken out of the SGR wrapper and collapsed) makes the file differ from export_text()]")
+
+
+RULES = [r15_1, r15_2, r15_3, r15_4, r15_5, r15_6, r15_7, r15_8, r15_9, r15_10, r15_11, r15_12, r15_13]
